@@ -86,7 +86,7 @@ pub fn gen_s1(focus: &str, seed: u64) -> S1Scenario {
         "C01" => *rng.pick(&["exhaustive", "exhaustive", "exhaustive", "mixed"]),
         "C02" => *rng.pick(&["exhaustive", "exhaustive", "exhaustive", "mixed"]),
         "C03" => *rng.pick(&["mixed", "mixed", "exhaustive", "timeout"]),
-        "C05" => *rng.pick(&["exhaustive", "exhaustive", "mixed", "panic", "timeout"]),
+        "C05" => *rng.pick(&["exhaustive", "exhaustive", "mixed", "panic", "timeout", "tail-timeout", "tail-panic"]),
         "C11" => *rng.pick(&["exhaustive", "exhaustive", "mixed", "timeout"]),
         "C12" => *rng.pick(&["mixed", "mixed", "timeout", "timeout", "tail-timeout", "depth"]),
         "C13" => *rng.pick(&["bfs1", "bfs1", "bfs1-mixed"]),
@@ -174,6 +174,45 @@ pub fn gen_s1(focus: &str, seed: u64) -> S1Scenario {
                 finish = Finish::AnyOf(vec!["nosuch".into()]);
             }
         }
+        "tail-panic" => {
+            // an effectively unbounded chain plus a side branch on which a worker panics: the
+            // worker on the chain must stop although nothing but the market tells it to
+            graph.tail = true;
+            graph.n = graph.n.max(3);
+            let n = graph.n;
+            graph.props = vec![PropSpec { kind: Kind::Always, bits: vec![true; n] }];
+            graph.boundary = vec![true; n];
+            graph.inits = vec![0];
+            // 0 -> 1 (side branch, where the panic fires) and 0 -> 2 -> 3 -> ... -> tail
+            graph.edges = vec![Vec::new(); n];
+            graph.edges[0] = if rng.chance(1, 2) { vec![Some(1), Some(2)] } else { vec![Some(2), Some(1)] };
+            for s in 2..n - 1 {
+                graph.edges[s].push(Some(s as u16 + 1));
+            }
+            graph.edges[1] = vec![Some(1)]; // so that next_state is called at the side state too
+            graph.panic = Some(match rng.below(3) {
+                0 => PanicSite::Actions(1),
+                1 => PanicSite::NextState(1),
+                _ => PanicSite::Cond(0, 1),
+            });
+            finish = Finish::All;
+            visitor = false;
+            polls = 0;
+            threads = 2 + rng.usize_below(2);
+            if strategy == Strategy::Simulation || strategy == Strategy::OnDemand {
+                strategy = if rng.chance(1, 2) { Strategy::Bfs } else { Strategy::Dfs };
+            }
+            sched.block_size = *rng.pick(&[1usize, 2, 5, 8]);
+            // a starved victim never panics and the chain then runs into the budget for nothing:
+            // use schedules under which every worker makes progress
+            sched.policy = match rng.below(3) {
+                0 => crate::sched::Policy::Random { stick_pct: 0 },
+                1 => crate::sched::Policy::Random { stick_pct: 50 },
+                _ => crate::sched::Policy::RoundRobin { quantum: rng.range(1, 6) as u16 },
+            };
+            sched.stall_ppm = 0;
+            sched.budget = 60_000;
+        }
         "timeout" | "tail-timeout" => {
             let tail = mode == "tail-timeout";
             if tail {
@@ -195,9 +234,9 @@ pub fn gen_s1(focus: &str, seed: u64) -> S1Scenario {
                 visitor = false;
                 polls = 0;
                 sched.block_size = *rng.pick(&[1usize, 2, 5, 8, 64]);
-                sched.budget = 600_000;
+                sched.budget = if focus == "C05" { 150_000 } else { 600_000 };
                 sched.stall_ppm = *rng.pick(&[0u32, 1000]);
-                let t = rng.range(1_000_000, 3_000_000_000);
+                let t = if focus == "C05" { rng.range(1_000_000, 50_000_000) } else { rng.range(1_000_000, 3_000_000_000) };
                 timeout_ns = Some(t);
                 sched.calm_after_wall_ns = Some(t + 100_000);
             } else {
